@@ -248,7 +248,7 @@ def attribute(entry: Any, v: Any) -> bool:
     global _ATTR  # pylint: disable=global-statement
     if _ATTR is None:
         _ATTR = findings.any_of(
-            findings.by_repair(worker, lambda it: it[1], lambda it, s: (it[0], s, it[2], it[3])),
+            findings.by_repair(worker, lambda it: it[1], lambda it, s: (it[0], s, it[2], it[3]), patches=("kind-partitions",)),
             findings.by_patch(worker),
         )
     return _ATTR(entry, v)
